@@ -43,8 +43,25 @@ def r9_float_args(text, log):
     return text, n
 
 
+def r1_literal_to_string(text):
+    """`"literal".to_string()` (diagnostics text) -> `vx_fmt()`"""
+    m = mask(text)
+    out = []
+    last = 0
+    n = 0
+    for mo in re.finditer(r'"[^"]*"\.to_string\(\)', m):
+        out.append(text[last:mo.start()])
+        out.append('vx_fmt()')
+        last = mo.end()
+        n += 1
+    out.append(text[last:])
+    return ''.join(out), n
+
+
 def apply(text, rules, what, log):
     text, n = r1_format(text)
+    text, n2 = r1_literal_to_string(text)
+    n += n2
     if n:
         log['rewrites'].append({'rule': 'R1', 'item': what, 'count': n})
     text, n = r2_log(text)
